@@ -316,21 +316,78 @@ def r_cwd(ctx, model):
                 return self.ctx.check(cond, instance, *a, **k)
             return cond
     C09.r_file(Only(ctx, {"x"}), model)
-    # packaged data are located through the package, not the working directory
-    for ref in ("cij.io.config.validate:validate_config", "cij.io.config.config:apply_default_config", "cij.io.output.results_writer:_load_writer_rules_file"):
+    # packaged data are located through the package, not the working directory: each reader folded on the file-system model
+    # (paths carry their anchor); every file it opens or probes must be anchored in the package
+    from ..fsmodel import FS, PathV
+    from ..sym import Ev, DictV, Obj, Opaque, RaisedV
+    for ref, args in (("cij.io.config.validate:validate_config", [DictV({})]), ("cij.io.config.config:apply_default_config", [DictV({})]),
+                      ("cij.io.output.results_writer:_load_writer_rules_file", None)):
         f = model.func(ref)
         ctx.fn(ref)
-        opens = [c for c in ast.walk(f) if isinstance(c, ast.Call) and (dotted_name(c.func) or "") == "open"]
-        ok = bool(opens)
-        for o in opens:
-            a0 = o.args[0]
-            okk = isinstance(a0, ast.Call) and (dotted_name(a0.func) or "").split(".")[-1] == "get_data_fname"
-            if isinstance(a0, ast.Name):
-                defs = [st.value for st in ast.walk(f) if isinstance(st, ast.Assign) and isinstance(st.targets[0], ast.Name) and st.targets[0].id == a0.id]
-                okk = bool(defs) and all(isinstance(d, ast.Call) and (dotted_name(d.func) or "").split(".")[-1] == "get_data_fname" for d in defs)
-            ok = ok and okk
-        ctx.check(ok, f"{ref.split(':')[1]} opens packaged data through get_data_fname", model.where(ref, f), expected="open(get_data_fname(<relative name>))",
-                  found="; ".join(src(o)[:60] for o in opens), explanation="a packaged data file is looked up relative to the working directory", key=f"packaged.{ref.split(':')[1]}")
+        fs = FS(missing="opaque")
+        intr = fs.intrinsics()
+        for parser in ("yaml.load", "yaml.safe_load", "yaml.full_load", "yaml.unsafe_load", "json.load", "json.loads"):
+            intr[parser] = lambda ev, a, k: (k.all(), DictV({}))[1]
+        ev = Ev(model, {}, intr, ctx=ctx)
+        ev.lenient = True
+        a = args if args is not None else []
+        try:
+            ev.call_def(f, model.mods[ref.split(":")[0]], ref, list(a), {})
+        except RaisedV:
+            pass
+        touched = [(op, pth) for op, pth, _ in fs.log]
+        # _load_writer_rules_file takes the file name from its caller: the caller must hand it a packaged path
+        if ref.endswith("_load_writer_rules_file") and f.args.args:
+            mod_ = model.mods[ref.split(":")[0]]
+            callers = [c for fn_ in list(mod_.funcs.values()) + [mod_.tree] for c in ast.walk(fn_) if isinstance(c, ast.Call) and (dotted_name(c.func) or "").split(".")[-1] == "_load_writer_rules_file"]
+            for c in callers:
+                if not c.args and not c.keywords:
+                    continue            # the default: folded above
+                ok_arg = c.args and isinstance(c.args[0], ast.Call) and (dotted_name(c.args[0].func) or "").split(".")[-1] == "get_data_fname"
+                if not ok_arg and c.args and isinstance(c.args[0], ast.Name):
+                    owner = next((fn_ for fn_ in mod_.funcs.values() if c in ast.walk(fn_)), mod_.tree)
+                    defs = [st.value for st in ast.walk(owner) if isinstance(st, ast.Assign) and isinstance(st.targets[0], ast.Name) and st.targets[0].id == c.args[0].id]
+                    ok_arg = bool(defs) and all(isinstance(d, ast.Call) and (dotted_name(d.func) or "").split(".")[-1] == "get_data_fname" for d in defs)
+                if not ok_arg:
+                    touched.append(("open", PathV(src(c.args[0]) if c.args else "?", "cwd")))
+        bad = [f"{op} {pth!r}" for op, pth in touched if pth.anchor != "packaged"]
+        ctx.check(bool(touched) and not bad, f"{ref.split(':')[1]} reads packaged data through get_data_fname only", model.where(ref, f),
+                  expected="every file opened or probed is located inside the package (cij.data.get_data_fname)",
+                  found="; ".join(bad) or f"{len(touched)} access(es), all packaged: {sorted({pth.text for _, pth in touched})}",
+                  explanation="a packaged data file is looked up relative to the working directory (or a working-directory entry is probed first)", key=f"packaged.{ref.split(':')[1]}")
+    # the input files named in the settings file are looked up next to the settings file, never in the working directory
+    ref = "cij.core.calculator:Calculator._load"
+    f = model.func(ref)
+    ctx.fn(ref)
+    for names in (("input01", "elast.dat"), ("sub/input01", "../shared/elast.dat")):
+        fs = FS(missing="opaque", probe=lambda p_, kind: False if p_.anchor == "cwd" else None)      # nothing of that name in the cwd today; a probe is logged
+        intr = fs.intrinsics(arg_anchor="cwd")
+        seen = {}
+        cfg = DictV({"qha": DictV({"input": names[0], "settings": DictV({})}), "elast": DictV({"input": names[1], "settings": DictV({})})})
+        intr.update({
+            "cij.io.config.config:read_config": lambda ev, a, k: seen.setdefault("config", a[0]) and cfg,
+            "cij.io.config.config:apply_default_config": lambda ev, a, k: a[0],
+            "cij.io.traditional.qha_input:read_energy": lambda ev, a, k: seen.setdefault("input01", a[0]) and Opaque("qha_input"),
+            "cij.io.traditional.elast_dat:read_elast_data": lambda ev, a, k: seen.setdefault("input02", a[0]) and Opaque("elast_data"),
+            "cij.core.qha_adapter:QHACalculatorAdapter": lambda ev, a, k: Opaque("adapter"),
+        })
+        ev = Ev(model, {(("cij.core.qha_adapter:QHACalculatorAdapter"), "__new__"): lambda ev, a, k: Opaque("adapter")}, intr, ctx=ctx)
+        ev.lenient = True
+        calc = Obj("cij.core.calculator:Calculator", {})
+        ev.call_def(f, model.mods["cij.core.calculator"], ref, [calc, PathV("CASE/settings.yaml", "arg")], {})
+        bad = []
+        for what, nm in (("input01", names[0]), ("input02", names[1])):
+            pth = seen.get(what)
+            if not isinstance(pth, PathV) or pth.anchor != "argdir" or pth.text != f"CASE/{nm}":
+                bad.append(f"{what} read from {pth!r}")
+        bad += [f"{op} {pth!r}" for op, pth, _ in fs.log if pth.anchor == "cwd"]
+        cfgp = seen.get("config")
+        if not (isinstance(cfgp, PathV) and cfgp.anchor == "arg") and cfgp != "CASE/settings.yaml":
+            bad.append(f"settings read from {cfgp!r}")
+        ctx.check(not bad, f"input files {names} named in the settings file are read from the settings file's directory", model.where(ref, f),
+                  expected="read_energy(<settings dir>/<qha.input>), read_elast_data(<settings dir>/<elast.input>); nothing probed in the working directory",
+                  found="; ".join(bad) or "as required", explanation="an input file named in the settings file is looked up in (or first probed in) the working "
+                  "directory: an unrelated entry of that name there changes which data are read", key=f"inputs.{names[0]}")
 
 
 def r_files(ctx, model):
